@@ -41,7 +41,8 @@ RULE = ('texts are generated from value descriptions (string, code point + escap
         'parsed back by the checker; a case is distinct by its text and non-trivial when the reference defines its '
         'value (in-domain); expected values are computed without the lexer: the string itself, chr(cp), '
         'the independent decoder, integer arithmetic, correctly rounded Fraction')
-ASSUMPTIONS = ['the per-code-point sweeps over U+0800..U+D7FF compare Constant.value only; every other case is also evaluated',
+ASSUMPTIONS = ['every case compares Constant.value in the tree; the literal is also evaluated except in the bulk of the sweeps '
+               '(code points U+0800..U+D7FF, strings and bodies of length 4, integers 2000..99999 other than multiples of 64, 3-digit fractions)',
                'CPython int arithmetic, chr() and Fraction->float rounding are the reference',
                'unicodedata names are the reference for \\N{NAME}',
                'a value whose verbatim spelling would need an unpaired backslash has no verbatim spelling (domain note of DESIGN C16)',
@@ -167,7 +168,7 @@ def job_spell_strings(firsts):
     for first in firsts:
         for n in range(1, 5):
             for rest in itertools.product(SPELL_ALPHA, repeat=n - 1):
-                spell(res, first + ''.join(rest))
+                spell(res, first + ''.join(rest), n <= 3)
     res.sample({'family': 'spell', 'value': firsts[0] + "'\\", 'texts': [M.quote(firsts[0] + "'\\", q) for q in M.STYLES]}, limit=1)
     return res
 
@@ -269,7 +270,8 @@ def job_bodies(firsts, maxlen):
                     else:
                         v = M.decode(body)
                         expect = None if v is M.ILLFORMED else ('const', v)
-                    judge(res, 'body', q + body + q, expect, {'family': 'body', 'body': body, 'style': q}, 'style=' + q)
+                    judge(res, 'body', q + body + q, expect, {'family': 'body', 'body': body, 'style': q}, 'style=' + q,
+                          n <= 3)
     res.sample({'family': 'body', 'text': "'" + firsts[0] + "\\x4f'", 'maxlen': maxlen}, limit=1)
     return res
 
@@ -277,19 +279,20 @@ def job_bodies(firsts, maxlen):
 # --------------------------------------------------------------------------
 # numbers
 # --------------------------------------------------------------------------
-def int_case(res, text, value, what):
+def int_case(res, text, value, what, evaluate=True):
     expect = ('const', value)
     if len(text) > 1 and text[0] == '0':
         expect = None                   # leading zeros: not covered by the reference
     if INT_LIMIT and len(text) > INT_LIMIT:
         expect = None
-    judge(res, 'int', text, expect, {'family': 'int', 'what': what}, 'digits=%s' % ('<=18' if len(text) <= 18 else '>18'))
+    judge(res, 'int', text, expect, {'family': 'int', 'what': what}, 'digits=%s' % ('<=18' if len(text) <= 18 else '>18'),
+          evaluate)
 
 
 def job_small_ints(lo, hi):
     res = Result()
     for n in range(lo, hi):
-        int_case(res, str(n), n, ['n', n])
+        int_case(res, str(n), n, ['n', n], n < 2000 or n % 64 == 0)
         if n < 1000:
             int_case(res, '00' + str(n), n, ['0n', n])
     res.sample({'family': 'int', 'range': [lo, hi]}, limit=1)
@@ -327,13 +330,13 @@ LONG_FRACTIONS = ['1' * 17, '1' * 18, '3' * 25, '0' * 20 + '1', '0' * 323 + '4',
                   '1000000000000000055511151231257827', '2' * 1000]
 
 
-def decimal_case(res, whole, frac):
+def decimal_case(res, whole, frac, evaluate=True):
     value = M.decimal_value(whole, frac)
     expect = ('const', value) if value is not None else None
     if len(whole) > 1 and whole[0] == '0':
         expect = None
     judge(res, 'decimal', whole + '.' + frac, expect, {'family': 'decimal', 'whole': whole, 'frac': frac},
-          'fraction-digits=%s' % ('<=3' if len(frac) <= 3 else '>3'))
+          'fraction-digits=%s' % ('<=3' if len(frac) <= 3 else '>3'), evaluate)
 
 
 def job_decimals(wholes):
@@ -341,7 +344,7 @@ def job_decimals(wholes):
     for whole in wholes:
         for n in (1, 2, 3):
             for f in itertools.product('0123456789', repeat=n):
-                decimal_case(res, whole, ''.join(f))
+                decimal_case(res, whole, ''.join(f), n <= 2)
         for f in LONG_FRACTIONS:
             decimal_case(res, whole, f)
     res.sample({'family': 'decimal', 'wholes': wholes[:3]}, limit=1)
